@@ -309,7 +309,8 @@ func (engine *Engine) Shutdown(ctx context.Context) (err error) {
 		return errStatusNotRunning
 	}
 	if !atomic.CompareAndSwapUint32(&engine.status, statusRunning, statusShutdown) {
-		return
+		// another call got in between: that one carries out the shutdown
+		return errStatusNotRunning
 	}
 
 	opt := engine.GetOptions()
